@@ -80,6 +80,7 @@ const (
 	behSCT  = 0 // answers with an SCT after DelayMs
 	behErr  = 1 // answers with an error after DelayMs
 	behHang = 2 // never answers; returns when its context ends
+	behStuck = 3 // never answers and ignores its context; returns only when the case is over
 )
 
 type Beh struct {
